@@ -18,7 +18,7 @@ from . import common as c
 
 R = 0x73eda753299d7d483339d80809a1d80553bda402fffe5bfeffffffff00000001
 W64 = 1 << 64
-PRE = ("From Coq Require Import ZArith List. Import ListNotations.\n"
+PRE = ("From Coq Require Import ZArith List Uint63. Import ListNotations.\n"
        "From CB Require Import Crypto.RangeStmt Crypto.BpInst.\nLocal Open Scope Z_scope.\n")
 VERD = {0: "Ok", 1: "First", 2: "Second", 3: "Division"}
 
